@@ -2,6 +2,8 @@
 PC = "hippolyzer/lib/proxy/circuit.py"
 BC = "hippolyzer/lib/base/message/circuit.py"
 LP = "hippolyzer/lib/proxy/lludp_proxy.py"
+MSG = "hippolyzer/lib/base/message/message.py"
+SE = "hippolyzer/lib/proxy/sessions.py"
 
 VARIANTS = [
     # ------------------------------------------------------------------ R1 tracker roles
@@ -187,4 +189,32 @@ VARIANTS = [
         {"file": PC, "old": "        effective_acks = tuple(\n            reverse_injections.get_original_id(x) for x in message.acks\n"
                             "            if not reverse_injections.was_injected(x)\n        )\n",
          "new": "        effective_acks = self._sanitise(reverse_injections, message.acks)\n"}]},
+    # ------------------------------------------------------------------ round 3
+    {"name": "R7 taken copy scrubbed only while the original is queued", "file": MSG, "expect": "C05.R7",
+     "old": "        message_copy.acks = tuple()\n        message_copy.send_flags &= ~PacketFlags.ACK\n",
+     "new": "        if self.queued:\n            message_copy.acks = tuple()\n            message_copy.send_flags &= ~PacketFlags.ACK\n"},
+    {"name": "R7 taken copy keeps the appended acks", "file": MSG, "expect": "C05.R7",
+     "old": "        message_copy.acks = tuple()\n", "new": ""},
+    {"name": "P R7 scrub right after the copy is made", "expect": "silent", "edits": [
+        {"file": MSG, "old": "        message_copy.acks = tuple()\n        message_copy.send_flags &= ~PacketFlags.ACK\n", "new": ""},
+        {"file": MSG, "old": "        message_copy = copy.deepcopy(self)\n",
+         "new": "        message_copy = copy.deepcopy(self)\n        message_copy.acks = ()\n"
+                "        message_copy.send_flags &= ~PacketFlags.ACK\n"}]},
+    {"name": "R8 live circuit rebuilt when the transport object differs", "file": SE, "expect": "C05.R8",
+     "old": "                if not region.circuit or not region.circuit.is_alive:\n                    logging_hook = None\n",
+     "new": "                if not region.circuit or not region.circuit.is_alive or region.circuit.transport is not transport:\n"
+            "                    logging_hook = None\n"},
+    {"name": "P R8 deadness spelled through the region property", "file": SE, "expect": "silent",
+     "old": "                if not region.circuit or not region.circuit.is_alive:\n                    logging_hook = None\n",
+     "new": "                if not region.is_alive:\n                    logging_hook = None\n"},
+    {"name": "P R1 selector result kept whole and indexed", "expect": "silent", "edits": [
+        {"file": PC, "old": "        fwd_injections, reverse_injections = self._get_injections(message.direction)\n\n"
+                            "        fwd_injections.mark_dropped(message.packet_id)\n",
+         "new": "        both = self._get_injections(message.direction)\n        fwd_injections = both[0]\n"
+                "        reverse_injections = both[1]\n\n        fwd_injections.mark_dropped(message.packet_id)\n"}]},
+    {"name": "R1 indexed selector result with the roles crossed", "expect": "C05.R1", "edits": [
+        {"file": PC, "old": "        fwd_injections, reverse_injections = self._get_injections(message.direction)\n\n"
+                            "        fwd_injections.mark_dropped(message.packet_id)\n",
+         "new": "        both = self._get_injections(message.direction)\n        fwd_injections = both[1]\n"
+                "        reverse_injections = both[0]\n\n        fwd_injections.mark_dropped(message.packet_id)\n"}]},
 ]
